@@ -367,6 +367,12 @@ def correspond(ctx, corr, model_ok):
                 corr.oracle_failures.append({'what': 'first frame on the new transport is %s, not SETUP (request issued while '
                                                      'connecting): %s' % (w[0], w), 'scenario': 'while-connecting',
                                              'suspends': suspends, 'cause': cause, 'policy': {}, 'acts': [], 'loss_kinds': []})
+    from harness.props import c07
+    for f in c07.reconnect_oracle():
+        corr.oracle_failures.append({'what': f['what'] + ' ' + f['detail'][:200], 'scenario': 'reconnect-window',
+                                     'reconnect_case': f['reconnect_case'], 'policy': {}, 'acts': [], 'loss_kinds': []})
+    corr.evaluations += 24
+    corr.count('reconnect windows with a request per loop iteration', 24)
     corr.rule = ('random sequences of 2..14 actions (request-response, server response, connection loss by EOF or read error, '
                  'provoked keepalive timeout, explicit reconnect on a healthy or dead connection, keepalive period) under four handler '
                  'policies (on_close / on_keepalive_timeout call reconnect or not); 1..6 consecutive reconnects; non-trivial = at least '
@@ -390,6 +396,11 @@ def search(ctx, budget_s):
 
 def replay(obj):
     case = obj['case']
+    if case.get('scenario') == 'reconnect-window':
+        from harness.props import c07
+        cs, ns, cause = case['reconnect_case']
+        r = c07.reconnect_requests(cs, ns, cause)
+        return bool(r['lost']) or not r['reconnected']
     if case.get('scenario') == 'while-connecting':
         issued, w = reconnect_with_request_while_connecting(case['suspends'], case['cause'])
         bad = bool(w) and w[0] != 'Setup'
